@@ -2009,3 +2009,47 @@ pub(crate) fn post_sync_process(
         debug!("Receive {} from {}, {}", item_name, peer, status);
     }
 }
+
+/// verification hook: read-only views of the in-flight table; add-only, off by default
+#[cfg(feature = "verif-hooks")]
+impl InflightState {
+    /// peer the block is being downloaded from
+    pub fn verif_peer(&self) -> PeerIndex {
+        self.peer
+    }
+    /// request time (unix millis)
+    pub fn verif_timestamp(&self) -> u64 {
+        self.timestamp
+    }
+}
+
+/// verification hook: read-only dump of the in-flight table; add-only, off by default
+#[cfg(feature = "verif-hooks")]
+#[allow(clippy::type_complexity)]
+impl InflightBlocks {
+    /// (states in map order, schedulers (peer, task_count, blocks), trace entries, restart_number)
+    pub fn verif_dump(
+        &self,
+    ) -> (
+        Vec<(BlockNumberAndHash, PeerIndex, u64)>,
+        Vec<(PeerIndex, usize, Vec<BlockNumberAndHash>)>,
+        Vec<(BlockNumberAndHash, u64)>,
+        BlockNumber,
+    ) {
+        (
+            self.inflight_states
+                .iter()
+                .map(|(k, v)| (k.clone(), v.peer, v.timestamp))
+                .collect(),
+            self.download_schedulers
+                .iter()
+                .map(|(p, d)| (*p, d.task_count, d.hashes.iter().cloned().collect()))
+                .collect(),
+            self.trace_number
+                .iter()
+                .map(|(k, v)| (k.clone(), *v))
+                .collect(),
+            self.restart_number,
+        )
+    }
+}
